@@ -704,4 +704,15 @@ Rejected, and d's later Yes ballot is recorded without changing that -/
 example : ((run 10 exqWorld exqOps).ms.core.proposals.get? 2).map (fun p => (p.status, p.votes)) = some (.rejected, ⟨4, 5, 0, 0⟩) := by
   decide
 
+/-- non-vacuity of `rejected_when_stored`: c's No (the fifth operation, block 102) is the call that stores
+proposal 2 as Rejected — Open before, Rejected after, not yet expired: no completion can pass -/
+example :
+    let s := (run 10 exqWorld (exqOps.take 4)).ms
+    ((s.core.proposals.get? 2).map (·.status)) = some .open ∧
+    ((execute s ⟨102, 1010⟩ "c" (.vote 2 .no)).toOption.map fun r => (r.1.core.proposals.get? 2).map (·.status))
+      = some (some .rejected) ∧
+    (Expiration.atHeight 111).isExpired ⟨102, 1010⟩ = false ∧
+    C04.libPasses exqInst.threshold 9 (C04.plus ⟨3, 5, 0, 0⟩ ⟨1, 0, 0, 0⟩) = false := by
+  decide
+
 end CwPlus.Props.C03
